@@ -1,5 +1,165 @@
-// mode "summary" (C10): placeholder, filled in below
+// mode "summary" (C10): the real round trip of acb's summary mode.
+//   1. run_acb_app_summary_to_model(date, [history.csv]) -> summary Txs (public entry point)
+//   2. write_txs_to_csv(summary)                          -> summary.csv (what `acb --summarize-before` prints)
+//   3. run_acb_app_to_delta_models([summary.csv, later.csv]) -> deltas of the re-run
+//   4. run_acb_app_to_delta_models([history.csv])            -> deltas of the full history
+use std::collections::HashMap;
+
+use acb::app::{run_acb_app_summary_to_model, run_acb_app_to_delta_models, Options};
+use acb::portfolio::bookkeeping::DeltaListResult;
+use acb::portfolio::io::tx_csv::{write_txs_to_csv, TxCsvParseOptions};
+use acb::portfolio::{CsvTx, Security, Tx, TxActionSpecifics};
+use acb::util::rw::{DescribedReader, WriteHandle};
+use async_std::task::block_on;
 use json::JsonValue;
-pub fn handle(_case: &JsonValue) -> JsonValue {
-    JsonValue::new_object()
+use time::{Date, Month};
+
+use crate::core_mode::delta_json;
+use crate::util::{dec, offline_rate_loader};
+
+fn reader(name: &str, text: &str) -> DescribedReader {
+    DescribedReader::from_string(name.to_string(), text.to_string())
+}
+
+fn deltas_json(res: &HashMap<Security, DeltaListResult>) -> JsonValue {
+    let mut secs = JsonValue::new_object();
+    for (sec, r) in res {
+        let mut o = JsonValue::new_object();
+        o["err"] = match &r.0 {
+            Ok(_) => JsonValue::Null,
+            Err(e) => e.err_msg.clone().into(),
+        };
+        o["deltas"] = JsonValue::Array(r.deltas_or_partial_deltas().iter().map(delta_json).collect());
+        secs[sec.as_str()] = o;
+    }
+    secs
+}
+
+fn run(files: Vec<DescribedReader>) -> JsonValue {
+    let mut o = JsonValue::new_object();
+    match block_on(run_acb_app_to_delta_models(
+        files,
+        HashMap::new(),
+        &TxCsvParseOptions::default(),
+        offline_rate_loader(),
+        WriteHandle::empty_write_handle(),
+    )) {
+        Err(e) => {
+            o["status"] = "err".into();
+            o["err"] = e.into();
+        }
+        Ok(r) => {
+            o["status"] = "ok".into();
+            o["secs"] = deltas_json(&r);
+        }
+    }
+    o
+}
+
+fn tx_json(t: &Tx) -> JsonValue {
+    let mut o = JsonValue::new_object();
+    o["sec"] = t.security.as_str().into();
+    o["td"] = t.trade_date.to_string().into();
+    o["sd"] = t.settlement_date.to_string().into();
+    o["af"] = t.affiliate.id().into();
+    o["reg"] = t.affiliate.registered().into();
+    o["ri"] = t.read_index.into();
+    o["memo"] = t.memo.as_str().into();
+    o["act"] = t.action().pretty_str().into();
+    match &t.action_specifics {
+        TxActionSpecifics::Buy(s) => {
+            o["q"] = JsonValue::Array(vec![
+                dec(&s.shares),
+                dec(&s.amount_per_share),
+                dec(&s.commission),
+                dec(&s.tx_currency_and_rate.exchange_rate),
+                dec(&s.commission_currency_and_rate().exchange_rate),
+            ]);
+        }
+        TxActionSpecifics::Sell(s) => {
+            o["q"] = JsonValue::Array(vec![
+                dec(&s.shares),
+                dec(&s.amount_per_share),
+                dec(&s.commission),
+                dec(&s.tx_currency_and_rate.exchange_rate),
+                dec(&s.commission_currency_and_rate().exchange_rate),
+            ]);
+            o["sfl"] = match &s.specified_superficial_loss {
+                Some(f) => JsonValue::Array(vec![dec(&f.superficial_loss), f.force.into()]),
+                None => JsonValue::Null,
+            };
+        }
+        TxActionSpecifics::Roc(s) => {
+            o["q"] = JsonValue::Array(vec![dec(&s.amount_per_held_share), dec(&s.tx_currency_and_rate.exchange_rate)]);
+        }
+        TxActionSpecifics::Sfla(s) => {
+            o["q"] = JsonValue::Array(vec![dec(&s.shares_affected), dec(&s.amount_per_share)]);
+        }
+        TxActionSpecifics::Split(s) => {
+            o["q"] = JsonValue::Array(vec![
+                dec(&s.ratio.post_split),
+                dec(&s.ratio.pre_split),
+                s.ratio.reverse_integer_only.into(),
+            ]);
+        }
+    }
+    o
+}
+
+pub fn handle(case: &JsonValue) -> JsonValue {
+    let hist = case["history"].as_str().unwrap();
+    let later = case["later"].as_str().unwrap();
+    let d: Vec<i32> = case["date"].members().map(|x| x.as_i32().unwrap()).collect();
+    let date = Date::from_calendar_date(d[0], Month::try_from(d[1] as u8).unwrap(), d[2] as u8).unwrap();
+    // the summary warns when "today" is within 60 days of the cut; pin today far in the future
+    acb::util::date::set_todays_date_for_test(Date::from_calendar_date(3000, Month::January, 1).unwrap());
+    let mut o = JsonValue::new_object();
+    o["full"] = crate::hcommon::guarded(|| run(vec![reader("history.csv", hist)]));
+    let mut options = Options::default();
+    options.summary_mode_latest_date = Some(date);
+    options.split_annual_summary_gains = case["annual"].as_bool().unwrap();
+    let res = block_on(run_acb_app_summary_to_model(
+        date,
+        vec![reader("history.csv", hist)],
+        HashMap::new(),
+        options,
+        offline_rate_loader(),
+        WriteHandle::empty_write_handle(),
+    ));
+    match res {
+        Err(e) => {
+            o["status"] = "err".into();
+            o["err"] = match e.general_error {
+                Some(g) => g,
+                None => {
+                    let mut v: Vec<String> = e.sec_errors.iter().map(|(s, m)| format!("{}: {}", s, m)).collect();
+                    v.sort();
+                    v.join("; ")
+                }
+            }
+            .into();
+        }
+        Ok(data) => {
+            o["status"] = "ok".into();
+            o["summary"] = JsonValue::Array(data.txs.iter().map(tx_json).collect());
+            let mut w: Vec<String> = data.warnings.keys().cloned().collect();
+            w.sort();
+            o["warnings"] = JsonValue::Array(w.into_iter().map(|s| s.into()).collect());
+            let csvtxs: Vec<CsvTx> = data.txs.into_iter().map(CsvTx::from).collect();
+            let mut files = Vec::new();
+            if !csvtxs.is_empty() {
+                // acb prints nothing at all when the summary is empty
+                let mut buf = Vec::<u8>::new();
+                write_txs_to_csv(&csvtxs, &mut buf).unwrap();
+                let text = String::from_utf8(buf).unwrap();
+                o["summary_csv"] = text.as_str().into();
+                files.push(reader("summary.csv", &text));
+            } else {
+                o["summary_csv"] = "".into();
+            }
+            files.push(reader("later.csv", later));
+            o["rerun"] = crate::hcommon::guarded(|| run(files));
+        }
+    }
+    o
 }
